@@ -162,6 +162,18 @@ pub fn gen_files(rng: &mut Rng, max_files: usize, max_body: usize) -> Files {
                     _ => format!("x{}", prev),
                 }
             }
+            4 if rng.chance(1, 3) => {
+                // path-like names: separators, "." and ".." components are ordinary name characters
+                let k = rng.range(1, 4);
+                let sep = if rng.chance(1, 3) { "\\" } else { "/" };
+                (0..k).map(|_| rng.pick(&["..", ".", "a", "dir", "x.bin", "", "..."]).to_string()).collect::<Vec<_>>().join(sep)
+            }
+            5 if rng.chance(1, 4) => {
+                // 60..70 single-byte characters followed by multi-byte ones (a 3-byte UTF-8 character
+                // straddles byte 64 for some of them)
+                let l = rng.range(58, 70);
+                (0..l).map(|i| (b'a' + (i % 26) as u8) as char).collect::<String>() + *rng.pick(&["あいうえお.bin", "ｱｲｳ", "日本語", "Ωψ"]) + &gen_ident(rng, 2)
+            }
             _ => format!("{}.bin", gen_ident(rng, 10)),
         };
         if files.iter().any(|(n2, _)| *n2 == name) {
@@ -198,6 +210,31 @@ pub fn run(cx: &mut Ctx) {
                 check(c, &files, 1);
             });
         }
+    }
+    if !miri {
+        // names ending in (or made of) control characters, at every position of an 8-byte word
+        cx.case("names_with_control_characters", |c| {
+            c.sit("names_ending_in_control_characters");
+            for ctl in ['\u{1}', '\u{2}', '\u{7f}', '\t', '\u{1f}'] {
+                let mut files: Files = Vec::new();
+                for k in 0..18usize {
+                    files.push((format!("{}{}", "n".repeat(k), ctl), vec![k as u8; k % 5]));
+                    files.push((format!("{}{}{}", "m".repeat(k), ctl, ctl), vec![]));
+                    files.push((format!("{}{}z", "p".repeat(k), ctl), vec![1]));
+                }
+                check(c, &files, 2);
+            }
+        });
+        // names of 65535 / 65536 / 65537 / 70000 encoded bytes (no field limits the length of a name)
+        cx.case("very_long_names", |c| {
+            c.sit("names_longer_than_64KiB");
+            for bytes in [65_535usize, 65_536, 65_537, 70_000] {
+                let kata: String = "テ".repeat(bytes / 2);
+                let name = if bytes % 2 == 1 { format!("x{}", kata) } else { kata };
+                let files: Files = vec![("first".into(), vec![1, 2, 3]), (name, vec![4; 40]), ("x".repeat(bytes), vec![]), ("last".into(), vec![5])];
+                check(c, &files, 2);
+            }
+        });
     }
     let n = cx.a.n(300_000, 2_000_000);
     let quick = cx.a.quick();
